@@ -92,10 +92,7 @@ theorem reportHeartbeat_cfg (m : Node) (i : Id) (hb now : Nat) : (m.reportHeartb
   unfold Node.reportHeartbeat
   split
   · rfl
-  · simp only
-    split
-    · rfl
-    · split <;> rfl
+  · split <;> rfl
 
 theorem reportHeartbeatsInDigest_cfg (m : Node) (dg : Digest) (now : Nat) :
     (m.reportHeartbeatsInDigest dg now).cfg = m.cfg := by
